@@ -516,6 +516,41 @@ def som(t):
     return z3.simplify(t, som=True, sort_sums=True)
 
 
+def _mono_key(t):
+    """structural key of a monomial without its numeric coefficient, and the coefficient's sign"""
+    if z3.is_rational_value(t):
+        return (0,), (1 if t.numerator_as_long() >= 0 else -1)
+    if z3.is_mul(t):
+        ch = t.children()
+        if ch and z3.is_rational_value(ch[0]):
+            sg = 1 if ch[0].numerator_as_long() >= 0 else -1
+            return tuple(sorted(c.hash() for c in ch[1:])), sg
+        return tuple(sorted(c.hash() for c in ch)), 1
+    return (t.hash(),), 1
+
+
+def canon_sign(n):
+    """(sign, n') with n == sign*n' and n' having a positive coefficient on its structurally
+    smallest monomial.  z3 does not rewrite (-x)/d into -(x/d); this does, so that the
+    negation rules of the primitives are decided syntactically."""
+    ns = som(n)
+    if z3.is_add(ns):
+        best = None
+        for c in ns.children():
+            k, sg = _mono_key(c)
+            if k == (0,):
+                continue
+            if best is None or k < best[0]:
+                best = (k, sg)
+        if best is not None and best[1] < 0:
+            return -1, som(-ns)
+        return 1, ns
+    k, sg = _mono_key(ns)
+    if sg < 0:
+        return -1, som(-ns)
+    return 1, ns
+
+
 def is_zero(d):
     return z3.is_rational_value(d) and d.numerator_as_long() == 0
 
@@ -678,7 +713,12 @@ class Sym:
         if ENG.guard(d == 0, [(x == 0, x == x) for x in so], 'ZeroDivisionError'):
             raise ZeroDivisionError('float division by zero')
         sh = _sf(lambda a, b: a / b, s.s, so)
-        return Sym(hashcons('div', s.t / d, sh), s=sh, f=f_mul(s.f, f_inv(facts_of(o))))
+        sg, nc = canon_sign(s.t)
+        if sg > 0:
+            q = hashcons('div', nc / d, sh)
+        else:
+            q = -hashcons('div', nc / d, tuple(-x for x in sh))
+        return Sym(q, s=sh, f=f_mul(s.f, f_inv(facts_of(o))))
 
     def __rtruediv__(s, o):
         try:
@@ -688,7 +728,12 @@ class Sym:
         if ENG.guard(s.t == 0, [(x == 0, x == x) for x in s.s], 'ZeroDivisionError'):
             raise ZeroDivisionError('float division by zero')
         sh = _sf(lambda a, b: b / a, s.s, shadow_of(o))
-        return Sym(hashcons('div', n / s.t, sh), s=sh, f=f_mul(facts_of(o), f_inv(s.f)))
+        sg, nc = canon_sign(n)
+        if sg > 0:
+            q = hashcons('div', nc / s.t, sh)
+        else:
+            q = -hashcons('div', nc / s.t, tuple(-x for x in sh))
+        return Sym(q, s=sh, f=f_mul(facts_of(o), f_inv(s.f)))
 
     def __neg__(s):
         return Sym(-s.t, int if s.kind is bool else s.kind, s=_sf(lambda a: -a, s.s), f=f_neg(s.f))
